@@ -78,6 +78,7 @@ def _ckey(v):
         t = z3.simplify(v.t)
         if z3.is_rational_value(t) or z3.is_int_value(t):
             return ("q", str(C.frac_of_model_value(t)))
+        C.cur().keepalive.append(t)
         return ("t", t.get_id(), t)
     if isinstance(v, (int, float)):
         import fractions
@@ -169,6 +170,7 @@ def coords_key(coords):
             if z3.is_rational_value(t) or z3.is_int_value(t):
                 ks.append(("q", str(C.frac_of_model_value(t))))
             else:
+                C.cur().keepalive.append(t)  # ids are only unique among live terms
                 ks.append(("t", t.get_id()))
         else:
             import fractions
